@@ -589,9 +589,30 @@ func checkRetryablePredicate(c *Ctx) {
 		return
 	}
 	fn := core.FuncName(f)
-	rps, _ := core.ReturnPaths(c.P, f, 1000)
+	// helpers of the package are opened: the predicate may be spelled isNoPacketErr(err) || isBadPacketErr(err)
+	rps := InlinedPaths(c.P, f, inlineOpts{pkg: core.FuncPkg(f), stop: hasLoop})
 	seenTypes := map[string]bool{}
-	okShape := true
+	okShape := len(rps) > 0
+	// the wrapper type an errors.As call looks for: the type its target variable points to
+	targetOf := func(t *core.Term) string {
+		tgt := ""
+		t.Walk(func(x *core.Term) bool {
+			if x.Op == "alloc" && x.Typ != nil {
+				if pt, ok := x.Typ.Underlying().(*types.Pointer); ok {
+					if tg := wrapperTag(pt.Elem()); tg != "" {
+						tgt = tg
+					}
+					if p2, ok := pt.Elem().(*types.Pointer); ok {
+						if tg := wrapperTag(p2); tg != "" {
+							tgt = tg
+						}
+					}
+				}
+			}
+			return true
+		})
+		return tgt
+	}
 	for _, rp := range rps {
 		res := rp.Results[0]
 		var pos []string
@@ -599,31 +620,14 @@ func checkRetryablePredicate(c *Ctx) {
 		for _, a := range rp.Atoms {
 			nn := a.Norm()
 			if nn.Cond.Op == "call" && nn.Cond.Name == "errors.As" {
-				tgt := ""
-				nn.Cond.Walk(func(x *core.Term) bool {
-					if x.Op == "alloc" {
-						tgt = x.Name
-					}
-					return true
-				})
 				if nn.Sign {
-					pos = append(pos, tgt)
+					pos = append(pos, targetOf(nn.Cond))
 				} else {
 					nneg++
 				}
 			} else {
 				okShape = false
 			}
-		}
-		targetOf := func(t *core.Term) string {
-			tgt := ""
-			t.Walk(func(x *core.Term) bool {
-				if x.Op == "alloc" {
-					tgt = x.Name
-				}
-				return true
-			})
-			return tgt
 		}
 		switch {
 		case res.IsConst("true"):
@@ -648,23 +652,7 @@ func checkRetryablePredicate(c *Ctx) {
 			okShape = false
 		}
 	}
-	// which types do the errors.As targets have
-	types2 := map[string]bool{}
-	for _, b := range f.Blocks {
-		for _, in := range b.Instrs {
-			if al, ok := in.(*ssa.Alloc); ok {
-				if tg := wrapperTag(al.Type().(*types.Pointer).Elem()); tg != "" {
-					types2[tg] = true
-				}
-				if p, ok := al.Type().(*types.Pointer).Elem().(*types.Pointer); ok {
-					if tg := wrapperTag(p); tg != "" {
-						types2[tg] = true
-					}
-				}
-			}
-		}
-	}
-	R.Check(okShape && types2["NoPkt"] && types2["BadPkt"] && len(seenTypes) == 2, "R09.2", fn+"#predicate", f.Pos(), fn, "true exactly when errors.As finds a ReceiveProbeNoPktError or a BadPacketError", fmt.Sprintf("CheckProbeRetryable is not exactly errors.As(NoPkt) ∨ errors.As(BadPkt): shape ok=%v, target types %v, true-paths %d", okShape, keysOf(types2), len(seenTypes)))
+	R.Check(okShape && seenTypes["NoPkt"] && seenTypes["BadPkt"] && len(seenTypes) == 2, "R09.2", fn+"#predicate", f.Pos(), fn, "true exactly when errors.As finds a ReceiveProbeNoPktError or a BadPacketError", fmt.Sprintf("CheckProbeRetryable is not exactly errors.As(NoPkt) ∨ errors.As(BadPkt): shape ok=%v, target types %v", okShape, keysOf(seenTypes)))
 }
 
 // checkNoPanic is R09.3(a).
